@@ -65,6 +65,22 @@ def sigma_strings(maxlen, lo=0):
             yield "".join(t)
 
 
+def _esc(c):
+    o = ord(c)
+    return "\\x%02x" % o if o < 256 else ("\\u%04x" % o if o < 65536 else "\\U%08x" % o)
+
+
+def spec_literal_denotable(s, e):
+    """a literal format spec is denotable on >= 3.12 by writing every character as an escape (\\x7b for a brace)"""
+    if sys.version_info < (3, 12) or not s:
+        return False
+    try:
+        back = ast.parse("f'{x:%s}'" % "".join(_esc(c) for c in s), mode="eval").body
+    except (SyntaxError, ValueError):
+        return False
+    return X.ndump(back) == X.ndump(e)
+
+
 def judge(res, key, e, by_construction):
     up = c03.unparser()
     res.c["literals"] += 1
@@ -197,7 +213,8 @@ def run_shard(shard):
         build, byc = STR_CONTEXTS[ctx]
         for rest in sigma_strings(maxlen - 1):
             s = first + rest
-            r = judge(res, "c04:sigma:%s:%s" % (ctx, ascii(s)), build(s), byc)
+            t = build(s)
+            r = judge(res, "c04:sigma:%s:%s" % (ctx, ascii(s)), t, byc or (ctx == "specliteral" and spec_literal_denotable(s, t)))
             if r == "ok" and len(s) == maxlen and res.c["literals"] % 1500 == 1:
                 res.sample({"key": "c04:sigma:%s:%s" % (ctx, ascii(s)), "text": c03.unparser()(build(s))})
     elif kind == "sigma0":
@@ -209,7 +226,8 @@ def run_shard(shard):
         for cp in list(range(0x300)) + BOUNDARY:
             ch = chr(cp)
             for form, s in (("1", ch), ("mid", "a" + ch + "b"), ("dbl", ch + ch)):
-                judge(res, "c04:cp:%s:%s:U+%04X" % (ctx, form, cp), build(s), byc)
+                t = build(s)
+                judge(res, "c04:cp:%s:%s:U+%04X" % (ctx, form, cp), t, byc or (ctx == "specliteral" and spec_literal_denotable(s, t)))
     elif kind == "bytes":
         for ctx, (build, byc) in BYTES_CONTEXTS.items():
             for v in range(256):
@@ -263,8 +281,11 @@ def shards(tier):
 def main(tier, seed, collect=None):
     t0 = time.time()
     total = core.run_shards(run_shard, shards(tier), seed=seed, pid=PID)
+    other_hosts = core.run_on_hosts(PID, ["py310", "py311", "py313"], "quick", seed, total) if tier == "thorough" else []
+
     c = total.c
     cov = {
+        "converter_hosts": [core.HOST] + other_hosts,
         "evaluations": c["literals"],
         "distinct_nontrivial": c["in_scope"],
         "rule": "each case is a distinct literal-bearing tree (distinct derivation key); non-trivial = in scope, i.e. some source text "
